@@ -42,8 +42,17 @@ fn c10_one(ctx: &mut Ctx, c: &DayCase, pol: usize, near: f64) {
         _ => return, // |lat| <= 60: they exist
     };
     // the property's domain: Shurooq and Maghrib exist and fall within the civil day (in that order)
-    if !(s < m) {
-        ctx.branch("outside-domain:maghrib-wraps-midnight");
+    // (the unwrapped hours decide: a rise/set whose Newton correction carries it across local midnight
+    // is reported with a clock time of the neighbouring day)
+    let raw = std::panic::catch_unwind(std::panic::AssertUnwindSafe(|| {
+        islamic_prayer_times::verif_hooks::raw_hours(&conv.p, conv.l, date_of_rd(conv.rd), conv.w.unwrap_or_default())
+    }));
+    let in_day = match raw {
+        Ok(h) => matches!((h[1], h[4]), (Ok(a), Ok(b)) if (0. ..24.).contains(&a) && (0. ..24.).contains(&b) && a < b),
+        Err(_) => false,
+    };
+    if !(s < m) || !in_day {
+        ctx.branch("outside-domain:rise-or-set-crosses-midnight");
         return;
     }
     let day = m - s;
